@@ -125,9 +125,17 @@ func checkC05(c *Ctx) {
 	c.Run.Assume = []string{"string data is immutable and may be shared", "zero-size allocations are not memory"}
 	c.Run.Floor = 50
 	sel := shapeSel{
-		ExtraTypes: commonExtras,
-		Forms:      []string{"top", "field"}, QuickDeep: 70, QuickRand: 24, ThorRand: 400, BatchSize: 44,
-		KeepShape: behaviouralShape,
+		// maps whose keys hold pointers are copied too (fresh keys with equal pointees): they are in scope
+		// here and nowhere else (no derived Equal / Compare / Hash exists for them)
+		ExtraTypes: func(s *pgen.Std) []*pgen.Type {
+			sk := s.U.DeclareAs("", "SKP", pgen.StructOf(pgen.F("P", pgen.Ptr(pgen.B("int"))), pgen.F("N", pgen.B("int"))))
+			return append(commonExtras(s), pgen.Map(pgen.Ptr(pgen.B("int")), pgen.B("string")), pgen.Map(pgen.Array(2, pgen.Ptr(pgen.B("int"))), pgen.B("int")),
+				pgen.Map(sk, pgen.Slice(pgen.B("int"))), pgen.Map(pgen.Ptr(s.SV), pgen.Ptr(s.SV)))
+		},
+		Forms: []string{"top", "field"}, QuickDeep: 70, QuickRand: 24, ThorRand: 400, BatchSize: 44,
+		KeepShape: func(t *pgen.Type) bool {
+			return behaviouralShape(t) || !t.Has(func(x *pgen.Type) bool { return x.K == pgen.KMap && !x.Key.PointerFree() && x.Key.K == pgen.KMap })
+		},
 		Ops: func(t *pgen.Type, form string) []string {
 			ops := []string{"clone"}
 			tt := t
